@@ -328,7 +328,9 @@ class Interp:
         if callee["crate"] != "tx3_lang" or callee.get("impl_trait") or callee.get("trait_default"):
             return False
         if not (callee["file"].endswith("parsing.rs") or "/parsing/" in callee["file"]):
-            return False
+            # parse helpers of other modules of the crate (`cardano/support.rs`): recognised by taking pairs
+            if not any("pest::iterators::Pair" in ty for ty in callee["locals"][1:1 + callee.get("argc", 0)]):
+                return False
         return len(callee["blocks"]) <= 150
 
     def _body(self, p):
